@@ -1,12 +1,21 @@
 """C18: multi-document merges combine documents as the selected mode defines.
 
-Case = (mode, [lhs YAML texts], [rhs YAML texts], options).  The real driver
-functions yamlpath.commands.yaml_merge.merge_condense_all / merge_across /
-merge_matrix are called with lists of real Merger objects.  Observation: the
-output documents when the exit state is 0 (nothing is written otherwise),
-else the exit state (for condense-all, which goes on after an error with a
-partially merged document, only the fact that it is non-zero).
+Case = (mode, [lhs YAML texts], [rhs YAML texts] | None, options).  Both streams
+are written to FILES (one `---` document each; the text "" is an empty
+document, i.e. a bare `---`); the left file is loaded with the real
+yamlpath.commands.yaml_merge.get_doc_mergers and the real dispatcher
+merge_docs(log, editor, config, lhs_mergers, rhs_file) is called -- it reads
+the mode from the configuration, loads the right-hand file and calls
+merge_condense_all / merge_across / merge_matrix.  rhs None = a file that
+does not exist; a stream holding BAD = a file that does not parse (exit 3).
+mode: condense | across | matrix | default (option absent) | a text that is
+no mode (NameError).  Observation: the output documents when the exit state
+is 0 (nothing is written otherwise), else the exit state (for condense-all,
+which goes on after an error with a partially merged document, only the fact
+that it is non-zero).
 """
+import os
+import tempfile
 import random
 from types import SimpleNamespace
 
@@ -17,15 +26,24 @@ import c05
 
 CONFIG = {
     "id": "C18",
-    "rule": ("left and right streams of 1-3 (random: 0-4) documents drawn from the C05 document grammar (<= 3 nodes: "
-             "hashes, arrays, sets, scalars, empty documents) x the three modes x option mixes; exhaustive over all "
-             "pairs of streams of length <= 2 over an 8-document core, random beyond.  non-trivial = at least two "
+    "rule": ("left and right streams (files) of 1-3 (random: 0-4) documents drawn from the C05 document grammar (<= 3 "
+             "nodes: hashes, arrays, sets, scalars, explicit nulls and EMPTY documents - a bare `---`) x the three "
+             "modes x option mixes; exhaustive over all pairs of streams of length <= 2 over a 9-document core, a "
+             "family placing an empty document at every position of left and right streams of length 1-4 under "
+             "every mode, random beyond (a fifth of the documents empty); a malformed stream: missing / unparsable "
+             "right-hand file, a mode text that is no mode, the mode option absent.  non-trivial = at least two "
              "pairwise merges happen; distinct = distinct case tuple."),
     "trusted_base": [
-        "modelled, not verified: yamlpath/commands/yaml_merge.py merge_condense_all, merge_across, merge_matrix",
+        "modelled, not verified: yamlpath/commands/yaml_merge.py merge_docs, merge_condense_all, merge_across, "
+        "merge_matrix; MergerConfig.get_multidoc_mode / MultiDocModes.from_str",
+        "input, not modelled: get_doc_mergers / Parsers.get_yaml_multidoc_data (file -> list of documents): the "
+        "model receives every document of the stream loaded on its own by the repository's YAML editor, the "
+        "implementation loads the file - a loader or dispatcher that drops, reorders or merges documents breaks the "
+        "tie",
         "the pairwise step is C05's model (coq/Model/Merge.v) on the model side and the real Merger.merge_with on "
         "the implementation side; the theorems hold for any pairwise step",
-        "not modelled: get_doc_mergers / file loading, write_output_document, main()'s loop over files",
+        "not modelled: write_output_document, main()'s loop over several right-hand files and its single-file "
+        "condense",
     ],
     "assumptions": [
         "after a failed pairwise merge the partially merged left document is not observed (no output is written when "
@@ -35,27 +53,42 @@ CONFIG = {
 }
 
 MODES = ("condense", "across", "matrix")
+MODE_TEXT = {"condense": "condense_all", "across": "merge_across", "matrix": "matrix_merge"}
+BAD = "{a: "          # a document text that does not parse
 _ENV = {}
 
 
 def init_worker():
     c05.init_worker()
     from yamlpath.commands import yaml_merge
-    _ENV.update(ym=yaml_merge)
+    _ENV.update(ym=yaml_merge, tmp=tempfile.mkdtemp(prefix="c18_"))
 
 
-def _mk(case):
-    mode, ls, rs, opts = case
-    E = c05._ENV
-    cfg = E["MergerConfig"](E["log"], SimpleNamespace(**opts))
-    L = [c05.load(t) for t in ls]
-    R = [c05.load(t) for t in rs]
-    return cfg, L, R
+def mode_text(mode):
+    """the multi_doc_mode option text (None: the option is absent)"""
+    return None if mode == "default" else MODE_TEXT.get(mode, mode)
+
+
+def eff_mode(mode):
+    """condense | across | matrix | None (no mode: NameError)"""
+    t = mode_text(mode)
+    if t is None:
+        return "condense"
+    return {"CONDENSE_ALL": "condense", "MERGE_ACROSS": "across", "MATRIX_MERGE": "matrix"}.get(t.upper())
+
+
+def loadable(rs):
+    return rs is not None and BAD not in rs
+
+
+def stream_text(texts):
+    return "".join("---\n" if t == "" else "--- %s\n" % t for t in texts)
 
 
 def requests(case):
     mode, ls, rs, opts = case
-    cfg, L, R = _mk(case)
+    L = [c05.load(t) for t in ls]
+    R = [c05.load(t) for t in rs] if loadable(rs) else []
     enc = docenc.Encoder()
     enc.fresh_oid()
     lsx = " ".join(enc.node(d) for d in L)
@@ -65,7 +98,8 @@ def requests(case):
         c05.scalars_of(d, vals)
     cli = " ".join(c05.opt_sexp(opts.get(k)) for k in ("hashes", "arrays", "aoh", "sets", "anchors"))
     c_s = "(cfg false () () (%s) (none none none none none))" % cli
-    return ["(multidoc %s %s %s (%s) (%s))" % (mode, c_s, oracles.lit_table(vals), lsx, rsx)]
+    return ["(mergedocs %s %s %s (%s) %s)" % (c05.opt_sexp(mode_text(mode)), c_s, oracles.lit_table(vals), lsx,
+                                             "(docs %s)" % rsx if loadable(rs) else "none")]
 
 
 class QuietLog:
@@ -74,14 +108,30 @@ class QuietLog:
 
 
 def run_driver(case):
+    """the real get_doc_mergers (left file) and merge_docs (right file)"""
     mode, ls, rs, opts = case
     E = c05._ENV
-    cfg, L, R = _mk(case)
-    LM = [E["Merger"](E["log"], d, cfg) for d in L]
-    RM = [E["Merger"](E["log"], d, cfg) for d in R]
-    fn = {"condense": _ENV["ym"].merge_condense_all, "across": _ENV["ym"].merge_across,
-          "matrix": _ENV["ym"].merge_matrix}[mode]
-    st = fn(QuietLog(), LM, RM)
+    ym = _ENV["ym"]
+    ns = dict(opts)
+    if mode_text(mode) is not None:
+        ns["multi_doc_mode"] = mode_text(mode)
+    cfg = E["MergerConfig"](E["log"], SimpleNamespace(**ns))
+    editor = E["Parsers"].get_yaml_editor()
+    lf = os.path.join(_ENV["tmp"], "l_%d.yaml" % os.getpid())
+    rf = os.path.join(_ENV["tmp"], "r_%d.yaml" % os.getpid())
+    with open(lf, "w") as f:
+        f.write(stream_text(ls))
+    if rs is None:
+        if os.path.exists(rf):
+            os.unlink(rf)
+    else:
+        with open(rf, "w") as f:
+            f.write(stream_text(rs))
+    log = QuietLog()
+    LM, ok = ym.get_doc_mergers(log, editor, cfg, lf)
+    if not ok:
+        raise RuntimeError("left stream did not load")
+    st = ym.merge_docs(log, editor, cfg, LM, rf)
     return st, [m.data for m in LM]
 
 
@@ -92,7 +142,7 @@ def observe(case):
         return [exc_line(e)]
     if st == 0:
         return ["(ok (%s))" % " ".join(c05.out_doc(d) for d in docs)]
-    if case[0] == "condense":
+    if 11 <= st <= 14:
         return ["(failed condense)"]
     return ["(failed i%d)" % st]
 
@@ -110,6 +160,7 @@ def pairwise(cfg_opts, l_data, r_text):
 def expected(case):
     """(list of plain documents) or None when some pairwise merge fails"""
     mode, ls, rs, opts = case
+    mode = eff_mode(mode)
     E = c05._ENV
     try:
         if mode == "condense":
@@ -143,8 +194,15 @@ def judge(case, obs):
     mode, ls, rs, opts = case
     if not ls:
         return None                       # the tool never calls the drivers without a left document
+    if eff_mode(mode) is None:
+        return None if line == "(raise (crash NameError))" else "a mode text that is no mode was accepted: %s" % line[:80]
     if line.startswith("(raise"):
         return "driver raised %s" % line
+    if not loadable(rs):
+        return None if line == "(failed i3)" else "an unloadable right-hand file did not end in exit state 3: %s" % line[:80]
+    if line == "(failed i3)":
+        return "exit state 3 although the right-hand file loads"
+    mode = eff_mode(mode)
     exp = expected(case)
     if exp is None:
         return None if line.startswith("(failed") else "a failing pairwise merge went unreported: %s" % line[:80]
@@ -164,7 +222,27 @@ def judge(case, obs):
 
 FINDING_PREDS = {}
 
-CORE = ["{}", "{a: 1}", "{a: [1]}", "{a: [2], b: 2}", "[1]", "[{id: 1, v: 1}]", "~", "x"]
+CORE = ["{}", "{a: 1}", "{a: [1]}", "{a: [2], b: 2}", "[1]", "[{id: 1, v: 1}]", "~", "x", ""]
+
+
+def empties_family():
+    """an empty document at every position of the right / the left stream, every mode"""
+    names = ["p", "q", "r", "s"]
+    lefts = [("{x: 1}",), ("{x: 1}", "{y: 1}"), ("{x: 1}", "{y: 1}", "{z: 1}"), ("{x: 1}", "[0]", "{z: 1}", "{w: 1}")]
+    for mode in MODES:
+        for n in range(1, 5):
+            full = ["{%s: %d}" % (names[i], i) for i in range(n)]
+            for pos in range(n):
+                for fill in ("", "~"):
+                    st = tuple(fill if i == pos else t for i, t in enumerate(full))
+                    for ls in lefts:
+                        yield (mode, ls, st, {})             # empty document in the right stream
+                    for rs in lefts:
+                        yield (mode, st, rs, {})             # empty document in the left stream
+            if n >= 2:
+                two = tuple("" if i in (0, n - 1) else t for i, t in enumerate(full))
+                for ls in lefts:
+                    yield (mode, ls, two, {})
 
 
 def chunks(tier, seed):
@@ -172,6 +250,11 @@ def chunks(tier, seed):
     buf = []
     size = 300
     streams = [[a] for a in CORE] + [[a, b] for a in CORE for b in CORE]
+    for c in empties_family():
+        buf.append(c)
+        if len(buf) >= size:
+            yield buf
+            buf = []
     for mode in MODES:
         for ls in streams:
             for rs in (streams if tier == "thorough" else rng.sample(streams, 14)):
@@ -184,10 +267,22 @@ def chunks(tier, seed):
     for i in range(n):
         top = rng.choice(["{", "{", "[", "any"])
         cand = [d for d in pool if top == "any" or d.startswith(top)] if rng.random() < 0.8 else pool
-        ls = tuple(rng.choice(cand) for _ in range(rng.randint(1, 4)))
-        rs = tuple(rng.choice(cand) for _ in range(rng.randint(0, 4)))
+        ls = tuple("" if rng.random() < 0.2 else rng.choice(cand) for _ in range(rng.randint(1, 4)))
+        rs = tuple("" if rng.random() < 0.2 else rng.choice(cand) for _ in range(rng.randint(0, 4)))
         o = dict(rng.choice(c05.ALL_COMBOS)) if rng.random() < 0.6 else {}
-        buf.append((rng.choice(MODES), ls, rs, o))
+        mode = rng.choice(MODES)
+        if i % 40 == 9:
+            # malformed stream
+            k = rng.randint(0, 3)
+            if k == 0:
+                rs = None
+            elif k == 1:
+                rs = rs[:1] + (BAD,) + rs[1:]
+            elif k == 2:
+                mode = rng.choice(["bogus", "Matrix_Merge", "ACROSS", ""])
+            else:
+                mode = "default"
+        buf.append((mode, ls, rs, o))
         if len(buf) >= size:
             yield buf
             buf = []
@@ -204,6 +299,13 @@ def corpus_chunks():
         ("matrix", ("{x: 1}", "{z: 1}"), ("{a: 1}", "[1]", "{b: 1}"), {}),
         ("condense", ("{x: 1}",), ("{a: 1}", "[1]", "{b: 1}"), {}),
         ("condense", ("{x: 1}", "[1]"), ("{a: 1}",), {}),
+        ("across", ("{x: 1}", "{y: 1}", "{z: 1}"), ("{a: 1}", "", "{c: 1}"), {}),    # an empty right-hand document keeps its place
+        ("across", ("{x: 1}",), ("", "{b: 1}"), {}),
+        ("matrix", ("{x: 1}", ""), ("", "{b: 1}"), {}),
+        ("condense", ("", "{x: 1}"), ("", "{b: 1}", ""), {}),
+        ("across", ("{x: 1}",), None, {}),
+        ("default", ("{x: 1}", "{y: 1}"), ("{a: 1}",), {}),
+        ("bogus", ("{x: 1}",), ("{a: 1}",), {}),
     ]
 
 
@@ -213,19 +315,26 @@ def key(case):
 
 def classify(case, obs):
     o = obs[0]
-    return "%s:%d/%d:%s" % (case[0], len(case[1]), len(case[2]),
-                            "ok" if o.startswith("(ok") else "failed" if o.startswith("(failed") else "raise")
+    mode, ls, rs, _ = case
+    empt = "+empty" if "" in ls or (rs and "" in rs) else ""
+    return "%s:%d/%s%s:%s" % (mode if mode in MODES or mode == "default" else "othertext", len(ls),
+                              "x" if rs is None else len(rs), empt,
+                              "ok" if o.startswith("(ok") else "failed" if o.startswith("(failed") else "raise")
 
 
 def nontrivial(case, obs):
     mode, ls, rs, _ = case
+    mode = eff_mode(mode)
+    if mode is None or not loadable(rs):
+        return False
     n = {"condense": len(ls) - 1 + len(rs), "across": min(len(ls), len(rs)), "matrix": len(ls) * len(rs)}[mode]
     return n >= 2
 
 
 def describe(case):
-    return {"mode": case[0], "lhs": list(case[1]), "rhs": list(case[2]), "options": case[3]}
+    return {"mode": case[0], "lhs": list(case[1]), "rhs": None if case[2] is None else list(case[2]),
+            "options": case[3]}
 
 
 def undescribe(d):
-    return (d["mode"], tuple(d["lhs"]), tuple(d["rhs"]), d["options"])
+    return (d["mode"], tuple(d["lhs"]), None if d["rhs"] is None else tuple(d["rhs"]), d["options"])
